@@ -654,9 +654,16 @@ class CWorld:
         dup = exists and name in self.meta.get(p, {})
         expect = exists and scls is not None and not aux and not dup and bad != "invalid"
         val = inst
+        js_expected = None
         if scls is not None and bad != "invalid":
             if op.get("as") == "obj":
                 val = scls.parse_obj(inst)
+                if name == "core.dir" and isinstance(inst.get("author"), list):
+                    # child-schema instances inside a parent-typed field are kept as they are
+                    pcls = self.schemas._get_unsafe("core.person", (0, 1, 0))
+                    val.author = [pcls.parse_obj(a) for a in inst["author"]]
+                    self.probe("nested_child_schema_instances")
+                js_expected = val.json()
             elif op.get("as") == "json":
                 val = scls.parse_obj(inst).json()
 
@@ -670,7 +677,7 @@ class CWorld:
             why = "missing node" if not exists else "unregistered" if scls is None else "auxiliary" if aux else "duplicate" if dup else "invalid instance" if bad == "invalid" else "valid"
             raise Violation("C07", "attach-outcome", f"meta[{name!r}] = ... at {p} ({why}) {'succeeded' if ok else 'raised ' + str(res[0][1])}, expected {'success' if expect else 'refusal'}", shape=why)
         if ok:
-            js = scls.parse_obj(inst).json()
+            js = js_expected or scls.parse_obj(inst).json()
             self.meta.setdefault(p, {})[name] = {"name": name, "version": list(sv), "json": js}
         return "ok" if ok else "raise"
 
@@ -1051,6 +1058,11 @@ class ContainerEngine:
                 roll = g.random()
                 name, ver = g.choice(VS.ATTACHABLE)
                 op = {"op": "meta_set", "path": node(0.95), "schema": name, "version": list(ver), "idx": counter[0], "how": g.choice(["class", "class", "name"]), "as": g.choice(["dict", "obj", "json"])}
+                if prop == "C20" and g.random() < 0.2:
+                    counter[0] += (3 - counter[0] % 3) % 3
+                    op.update(schema="core.dir", version=[0, 1, 0], idx=counter[0], how="class")
+                    op["as"] = "obj"
+                    roll = 1.0
                 if roll < 0.06:
                     op["bad"] = "invalid"
                 elif roll < 0.10:
